@@ -135,7 +135,12 @@ def _library_frames(tb):
 
 def _worker(unit):
     try:
-        return _MODULE.run_unit(unit)
+        r = _MODULE.run_unit(unit)
+        if r.get("failures"):
+            small = unit if len(dumps(unit)) < 20000 else None
+            for f in r["failures"]:
+                f["unit"] = small          # lets the runner re-execute the whole unit if the single case is history-dependent
+        return r
     except BaseException as e:
         # An exception that escaped from (or through) library code on an in-scope input is a verdict about the
         # library - "the call did not do what the property says" - not a defect of the machinery.  Everything
@@ -158,6 +163,22 @@ def _replay_entry(kc):
     kind, case = kc
     if kind == "unit-crash":
         return _replay_unit_crash(_MODULE, case)
+    if kind == "unit-replay":
+        # a failure that only shows after the earlier cases of its work unit (hidden state in the library): the unit is the replay
+        r = _worker(case["unit"])
+        same = [(f["sig"], f["msg"]) for f in r.get("failures", []) if f["sig"] == case["sig"]]
+        return same or [(f["sig"], f["msg"]) for f in r.get("failures", [])]
+    if kind == "whole-run":
+        # last resort for failures that depend on state carried across work units: every unit, in order, in one fresh process
+        if hasattr(_MODULE, "prepare"):
+            _MODULE.prepare(case["tier"], case["seed"])
+        out = []
+        for u in _MODULE.units(case["tier"], case["seed"]):
+            r = _worker(u)
+            out += [(f["sig"], f["msg"]) for f in r.get("failures", [])]
+            if len(out) >= 3:
+                break
+        return out
     return _MODULE.replay(kind, case)
 
 
@@ -190,7 +211,7 @@ def write_evidence(pid, ev):
 def do_replay(mod, path):
     with open(path) as fh:
         rec = json.load(fh)
-    fails = _replay_unit_crash(mod, rec["case"]) if rec["kind"] == "unit-crash" else mod.replay(rec["kind"], rec["case"])
+    fails = _replay_entry((rec["kind"], rec["case"]))
     print("replay %s kind=%s" % (path, rec["kind"]))
     print("case: " + dumps(rec["case"])[:4000])
     print("recorded: [%s] %s" % (rec.get("sig"), rec.get("msg")))
@@ -298,8 +319,23 @@ def main(argv=None):
         again = replay_isolated(f["kind"], f["case"])
         if again:
             confirmed.append((key, f))
+        elif f.get("unit") is not None and replay_isolated("unit-replay", {"unit": f["unit"], "sig": f["sig"]}):
+            f = dict(f, kind="unit-replay", case={"unit": f["unit"], "sig": f["sig"], "first_case": f["case"]},
+                     msg=f["msg"] + " [only reproducible after the earlier cases of its work unit: the library keeps hidden state between calls]")
+            confirmed.append((key, f))
         else:
             flaky.append(f)
+    if flaky and not confirmed:
+        # nothing reproduced case by case or unit by unit: re-run the whole check sequentially in one fresh process
+        whole = replay_isolated("whole-run", {"tier": tier, "seed": seed})
+        if whole:
+            f0 = flaky[0]
+            confirmed.append((digest(["whole-run", tier, seed]), {"kind": "whole-run", "case": {"tier": tier, "seed": seed, "first_case": f0["case"]},
+                              "sig": whole[0][0], "msg": whole[0][1] + " [reproducible only by running the work units in sequence in one process: the library keeps hidden state between calls]"}))
+            flaky = []
+    if flaky and confirmed:
+        print("note: %d failing case(s) were history-dependent and did not reproduce in isolation; %d others were confirmed" % (len(flaky), len(confirmed)))
+        flaky = []
     if flaky:
         print("HARNESS-ERROR: %d failing case(s) did not fail again when replayed (nondeterminism not owned)" % len(flaky))
         print(dumps(flaky[0])[:2000])
